@@ -552,6 +552,7 @@ class History:
         self.snaps = []                 # (name, bytes, field values at that time) of successful parses
         self.trace = []
         self.after = "start"            # class of the step before the next judged call
+        self.last_failed = None         # class of the most recent unjudged call that raised
 
     # ---- bookkeeping
     def register(self, m, obj, kind, frozen=False):
@@ -675,7 +676,7 @@ class History:
         if st != "ok" or got != want:
             st2, got2 = observe(lambda: N.message.pack(name, **kw))
             if st2 == "ok" and got2 == want:
-                mech = "p2p.history.pack_wrong_once.after_%s" % self.after            # state left behind by the call before
+                mech = "p2p.history.pack_wrong_once.after_%s" % (self.last_failed or self.after)   # state left behind by an earlier call
             else:
                 st3, got3 = _pack(N, name, fields)
                 if st3 == "ok" and got3 == want:
@@ -910,6 +911,8 @@ class History:
         self.rec.ev("history.step:pack_with_invalid_value")
         self.rec.ev("history.invalid_pack_%s" % ("raised" if st != "ok" else "returned"))
         self.after = "failed_pack" if st != "ok" else "invalid_pack_returned"
+        if st != "ok":
+            self.last_failed = "failed_pack"
         self.trace.append("bad_pack:%s" % bad_name)
         if rng.random() < 0.5:
             if own:
@@ -936,6 +939,8 @@ class History:
         self.rec.ev("history.step:parse_of_damaged_bytes")
         self.rec.ev("history.damaged_parse_%s" % ("raised" if st != "ok" else "returned"))
         self.after = "failed_parse" if st != "ok" else "damaged_parse_returned"
+        if st != "ok":
+            self.last_failed = "failed_parse"
         self.trace.append("bad_parse:%s" % name)
         return self.step_repack() if rng.random() < 0.6 else self.step_new()
 
